@@ -168,6 +168,27 @@ def replay_c13_case(case):
     return bad
 
 
+FILE_NAMES = ['.dzn', 'models/.scratch.dzn', 'M', 'M.dzn.json', 'a b.dzn', 'M..dzn', 'dir.d/M.dzn', 'M.DZN', '...', 'm\u00e9.dzn']
+
+
+def replay_c13_filenames(case):
+    """The valid members of the family, built for unusual Dezyne file names: a complete result or a diagnosed error,
+    never an internal error or a hang (what the output files are called is not judged)."""
+    bad = []
+    for fname in FILE_NAMES:
+        try:
+            stg, _ = build_model(case['decls'], case['cfg'], desc_over={'file': fname})
+        except Exception as exc:  # pylint: disable=broad-except
+            return [('harness-visible exception', None, f'{type(exc).__name__}: {exc}')]
+        fam = family(stg)
+        if fam == 'internal':
+            bad.append((f'dezyne file name {fname!r}: internal error or hang', 'files or a diagnosed error',
+                        f'{stg.exc_name}: {str(stg.exc)[:160]}'))
+        elif stg.ok and len({g.filename for g in stg.result.files}) != 8:
+            bad.append((f'dezyne file name {fname!r}: complete result', 8, [g.filename for g in stg.result.files]))
+    return bad
+
+
 def rand_cfg_for(rng, decls):
     comps = [d for d in decls if d['kind'] in ('component', 'system')]
     others = [d for d in decls if d['kind'] not in ('component', 'system')]
@@ -239,6 +260,8 @@ def check_c13(tier, seed):
     cases = res.emitted()
     chk.sample({k: cases[10][k] for k in ('fault', 'base', 'outcome', 'cfg')})
     replay_parallel(chk, cases, replay_c13_case, 'faults', lambda c: json.dumps([c['base'], c['fault']], sort_keys=True))
+    plain = [c for c in cases if c['fault'] == 'none'][::6]
+    replay_parallel(chk, plain, replay_c13_filenames, 'file names', lambda c: json.dumps(['file-names', c['base']], sort_keys=True))
     chk.traces += len(cases)
     rng = random.Random(seed + 13)
     traces = [record_build_trace(rng, f'b{seed}-{i}') for i in range(400 if tier == 'quick' else 6000)]
